@@ -8,5 +8,6 @@ CONSTANTS
   Wrappers <- NoWrap
   MaxWrap = 0
   MaxDeep = 0
+  DeepWraps = 0
 SPECIFICATION Spec
 CHECK_DEADLOCK FALSE
